@@ -1275,9 +1275,9 @@ theorem safe_poolGov (u : List Site) (e : Env) (htg : typesGov u e = .ok ())
       · exact safe_ok _
 
 /-- Pool admission panics only at sites of `u`. -/
-theorem safe_admit (u : List Site) (e : Env) (hr : .gAdmins ∈ u ∨ e.adminsReadable = true) (hrpc : RpcOk e) :
-    Safe u (admit u e) := by
-  unfold admit
+theorem safe_poolAdmit (u : List Site) (e : Env) (hr : .gAdmins ∈ u ∨ e.adminsReadable = true) (hrpc : RpcOk e) :
+    Safe u (poolAdmit u e) := by
+  unfold poolAdmit
   apply safe_bind (safe_typesValidate u e); intro _ htv
   apply safe_bind (safe_rejectIf _ _); intro _ _
   split
